@@ -1789,12 +1789,18 @@ ws_listener_close(void *arg)
 {
 	nni_ws_listener *l = arg;
 	nni_ws          *ws;
+	nni_aio         *aio;
 	nni_mtx_lock(&l->mtx);
 	if (l->closed) {
 		nni_mtx_unlock(&l->mtx);
 		return;
 	}
 	l->closed = true;
+	// Nobody will ever be handed to the accepts still waiting.
+	while ((aio = nni_list_first(&l->aios)) != NULL) {
+		nni_aio_list_remove(aio);
+		nni_aio_finish_error(aio, NNG_ECLOSED);
+	}
 	if (l->started) {
 		nni_http_server_del_handler(l->server, l->handler);
 		nni_http_server_close(l->server);
